@@ -467,7 +467,26 @@ func goldenCase(in map[string]any) map[string]any {
 		return map[string]any{"error": "compile: " + err.Error()}
 	}
 	lr := fs[0].(linker.Result)
-	res := linker.ResolverFromFile(lr)
+	// resolver over the transitive closure: the options messages may come from a descriptor.proto that the
+	// file does not import itself
+	var closure linker.Files
+	visited := map[string]bool{}
+	var add func(f protoreflect.FileDescriptor)
+	add = func(f protoreflect.FileDescriptor) {
+		if visited[f.Path()] {
+			return
+		}
+		visited[f.Path()] = true
+		if lf, ok := f.(linker.File); ok {
+			closure = append(closure, lf)
+		}
+		imps := f.Imports()
+		for i := 0; i < imps.Len(); i++ {
+			add(imps.Get(i).FileDescriptor)
+		}
+	}
+	add(lr)
+	res := closure.AsResolver()
 	mine := describe(lr.FileDescriptorProto(), res)
 	theirs := describe(gold, res)
 	idx := map[string]any{}
